@@ -951,6 +951,7 @@ func TestC14(t *testing.T) {
 		i := i
 		run(func() { c14resetWhileBusy(rep, seed, i) })
 		run(func() { c14udpClientClosedPort(rep, seed, i) })
+		run(func() { c14udpClientOldPortTaken(rep, seed, i) })
 	}
 	for i := 0; i < vh.Pick(2, 12); i++ {
 		i := i
@@ -1074,6 +1075,83 @@ func c14udpClientClosedPort(rep *vh.Report, seed uint64, idx int) {
 			rep.Violation("ep=udp-client what=no-cause", "the close event of a UDP client channel whose remote port is closed carries no error", nil)
 			break
 		}
+	}
+}
+
+// c14udpClientOldPortTaken: the channel of a UDP client expires (the server is silent); during the reconnect delay another
+// socket takes the local port the old channel had used. The endpoint provides a fresh channel all the same (from whatever
+// local port), after the reconnect delay.
+func c14udpClientOldPortTaken(rep *vh.Report, seed uint64, idx int) {
+	if aborted() {
+		return
+	}
+	T := 250 * time.Millisecond
+	srv, err := net.ListenPacket("udp4", "127.0.0.1:0")
+	if err != nil {
+		rep.Inconclusive("C14 udp-client old port: " + err.Error())
+		return
+	}
+	defer srv.Close()
+	var smu sync.Mutex
+	var lastSrc net.Addr
+	var nDatagrams int64
+	go func() {
+		buf := make([]byte, 2048)
+		for {
+			_, a, err := srv.ReadFrom(buf)
+			if err != nil {
+				return
+			}
+			smu.Lock()
+			lastSrc = a
+			smu.Unlock()
+			atomic.AddInt64(&nDatagrams, 1)
+		}
+	}()
+	node := &gomavlib.Node{Endpoints: []gomavlib.EndpointConf{gomavlib.EndpointUDPClient{Address: srv.LocalAddr().String()}}, Dialect: testDialect, OutVersion: gomavlib.V2, OutSystemID: 39,
+		HeartbeatPeriod: 30 * time.Millisecond, IdleTimeout: T}
+	if err := node.Initialize(); err != nil {
+		rep.Inconclusive("C14 udp-client old port: " + err.Error())
+		return
+	}
+	life := watchLife(node)
+	held := 0
+	var squat net.PacketConn
+	for round := 0; round < 6 && held == 0; round++ {
+		if !waitFor(func() bool { return life.count(true) > round && atomic.LoadInt64(&nDatagrams) > 0 }, life.progress, 2*time.Second) {
+			break
+		}
+		smu.Lock()
+		src := lastSrc
+		smu.Unlock()
+		// the channel expires (nothing is ever received); the moment it is reported closed, somebody else binds its port
+		if !waitFor(func() bool { return life.count(false) > round }, life.progress, 4*T+2*time.Second) {
+			break
+		}
+		if pc, err := net.ListenPacket("udp4", src.String()); err == nil {
+			squat = pc
+			held++
+			opensBefore := life.count(true)
+			ok := waitFor(func() bool { return life.count(true) > opensBefore }, life.progress, 2*time.Second)
+			rep.Count("udp_client_reconnects_with_the_old_local_port_taken", 1)
+			if !ok {
+				rep.Violation("ep=udp-client what=no-reconnect", fmt.Sprintf("after its channel had expired and another socket had taken the local port %s the old channel used, the UDP client endpoint provided no fresh channel within 2 s (reconnect period %v)", src, c14reconnect), nil)
+			}
+		} else {
+			rep.Count("udp_client_old_port_not_free_at_once", 1)
+		}
+	}
+	if squat != nil {
+		squat.Close()
+	}
+	if !safeClose(rep, node) {
+		return
+	}
+	<-life.done
+	rep.Eval(1)
+	rep.Distinct("udp-old-port", idx)
+	if held == 0 {
+		rep.Count("udp_client_old_port_runs_without_a_taken_port", 1)
 	}
 }
 
